@@ -140,6 +140,11 @@ impl<S: Stream + Unpin> Stream for MergeUnbounded<S> {
                 }
             }
         }
+        // The retained (largest) group may have been visited before the other groups turned
+        // out to be exhausted; then nothing is left and no group has registered the waker.
+        if groups.iter().all(|g| g.streams.is_empty()) {
+            return Poll::Ready(None);
+        }
         Poll::Pending
     }
 }
